@@ -22,7 +22,7 @@ Explained(e) ==
              /\ PrintT(<<"MSG", "KNOWN", d, e.case>>)
 
 Next == /\ l <= Len(Rec)
-        /\ Explained(Rec[l])
+        /\ Explained(Rec[l]) = TRUE       \* evaluated as a value (not split into sub-actions)
         /\ l' = l + 1
 Spec == Init /\ [][Next]_l
 
